@@ -46,6 +46,32 @@ def unflat(space, arr):
     return space.element(arr.reshape(space.shape).copy())
 
 
+def rebuild_space(space):
+    """An EQUAL but separately built space (from the constructor call in its repr; product spaces
+    rebuild their parts); None when that is not possible."""
+    import copy
+    import odl
+    ns = {k: getattr(odl, k) for k in dir(odl) if not k.startswith('_')}
+    ns['np'] = np
+    ns['array'] = np.array
+    ns['inf'] = np.inf
+    for build in (lambda: eval(repr(space), ns), lambda: copy.deepcopy(space)):
+        try:
+            s2 = build()
+            if s2 == space and s2 is not space:
+                return s2
+        except Exception:  # noqa
+            pass
+    return None
+
+
+def unflat_distinct(space, arr):
+    """element with the given values in an equal-but-distinct copy of `space` (legal everywhere in
+    ODL: membership is equality of spaces, not identity); falls back to `space` itself."""
+    s2 = rebuild_space(space)
+    return unflat(s2 if s2 is not None else space, arr)
+
+
 def exact_matrix(op):
     """Matrix of a linear operator w.r.t. the flat coordinates, entries exact Fractions."""
     n = size_of(op.domain)
